@@ -193,6 +193,13 @@ def generate(rng, tier):
            "dtype": rng.choice(["f64", "f64", "f64", "f32", "i64"]) if exact or rng.random() < 0.5 else "f64",
            "fwc_level": fwc / tt, "adc_level": max(adc_e - bias, 0.0) / tt,
            "beyond": 10 ** rng.uniform(1, 6)}
+    if mode == "off" and not exact and not big and rng.random() < 0.04:
+        # an absurdly over-exposed scene on a sensor whose full well is (practically) unbounded: the reading is
+        # the ADC ceiling, whatever integer type an intermediate happens to have
+        det["fwc"] = rng.choice([1e25, 1e30, float("inf")])
+        det["gain"] = rng.choice([0.001, 0.05, 0.5])
+        det["prnu"] = det["dcnu"] = None
+        img.update({"regime": "astro", "dtype": "f64", "t_eff": tt, "fwc_level": det["fwc"] / tt})
     ops = [{"op": "expose"}]
     if rng.random() < 0.8:
         ops.append({"op": "brighter", "seed": rng.getrandbits(32),
@@ -274,6 +281,8 @@ def build_img(np, spec):
         img = fw * (0.9 + 0.2 * u)
     elif reg == "adc":
         img = ad + (u - 0.5) * 4 * max(1.0, ad * 1e-3)
+    elif reg == "astro":
+        img = 10.0 ** (15.5 + 3.0 * u) / spec.get("t_eff", 1.0)      # 3e15 .. 3e18 electrons: beyond int64 once divided by a small gain
     else:
         img = sat * (1 + u * spec["beyond"])
     img = np.maximum(img, 0.0)
@@ -614,6 +623,10 @@ def execute(plan):
                 if cfg.get("bits_form") == "float" and isinstance(e, (TypeError, ValueError)):
                     # a bit depth is an integer quantity: 8.0 may be refused cleanly (what is accepted must be right)
                     bump(probes, "float_bit_depth_refused")
+                elif (d.get("dcnu") or {}).get("shape") and isinstance(e, (TypeError, ValueError)):
+                    # the maps are documented as image-shaped ("ones_like is perfectly uniform"): a per-row or
+                    # per-column map works by broadcasting today and may be refused cleanly
+                    bump(probes, "reduced_dark_map_refused")
                 else:
                     viol("raised", "expose", exc=type(e).__name__, msg=str(e)[:160],
                          prnu=S.prnu is not None, dcnu=S.dcnu is not None)
